@@ -12,7 +12,7 @@
    error sets; it is not proved for all documents. *)
 From Coq Require Import ZArith List String Bool.
 From TV Require Import Py.Prelude Model.Schema Model.ImplInput Model.ImplExec Model.Envelope
-     Model.ImplValidate Model.SpecValidate Model.RunValidate Proofs.ValidateProofs Proofs.ValidateRules Proofs.ValidateValues Proofs.ValidateSites Proofs.ValidateWalk Proofs.ValidateTree Proofs.SingleRoot Proofs.ValidateSpreads Proofs.ValidateScopes Proofs.ValidateVars Proofs.ValidatePure
+     Model.ImplValidate Model.SpecValidate Model.RunValidate Proofs.ValidateProofs Proofs.ValidateRules Proofs.ValidateValues Proofs.ValidateSites Proofs.ValidateWalk Proofs.ValidateTree Proofs.SingleRoot Proofs.ValidateSpreads Proofs.ValidateScopes Proofs.ValidateVars Proofs.ValidatePure Proofs.SingleRootSpreads
      Gen.Wiring_gen Proofs.Wiring.
 Import ListNotations.
 Open Scope string_scope.
@@ -259,6 +259,27 @@ Theorem C07_disallowed_variable_usage_refused V
   accepted V doc = false.
 Proof. exact (disallowed_usage_refused V Hin Hfields Hdirs doc o u a vd). Qed.
 
+(* 5.2.3.1 single root field, EXACT through fragment spreads: the engine's traversal (with its visited set; cyclic spread
+   graphs included) collects every response key reachable through inline fragments and any chain of spreads, so a
+   subscription from whose root two DIFFERENT response keys are reachable is reported, and the document is not accepted
+   (the converse is C06_one_root_key_written_many_times_accepted) *)
+Theorem C07_every_reachable_root_key_is_collected frs fuel sels v' k' :
+  response_keys fuel frs sels [] [] = Some (v', k') -> forall k, reachable_key frs sels k -> In k k'.
+Proof. exact (response_keys_complete frs fuel sels v' k'). Qed.
+
+Theorem C07_two_reachable_root_keys_reported doc o :
+  In o (operations doc) -> o_kind o = OpSubscription -> two_reachable_keys (fragments doc) (o_sels o) ->
+  single_root_rule doc <> Some [].
+Proof. exact (single_root_rule_refuses_reachable doc o). Qed.
+
+Theorem C07_two_reachable_root_keys_refused V doc o :
+  In o (operations doc) -> o_kind o = OpSubscription -> two_reachable_keys (fragments doc) (o_sels o) -> accepted V doc = false.
+Proof.
+  intros Hin Hk Htwo. destruct (accepted V doc) eqn:E; [|reflexivity]. exfalso.
+  apply accepted_iff_clean, validate_clean_iff in E. destruct E as (_ & _ & _ & _ & Hq & _).
+  exact (single_root_rule_refuses_reachable doc o Hin Hk Htwo Hq).
+Qed.
+
 Print Assumptions C07_source_invokes_every_supported_rule.
 Print Assumptions C07_cycle_rule_exact.
 Print Assumptions C07_fragment_cycle_refuses.
@@ -291,3 +312,6 @@ Print Assumptions C07_usages_allowed_rule_exact.
 Print Assumptions C07_undeclared_variable_refused.
 Print Assumptions C07_unused_variable_refused.
 Print Assumptions C07_disallowed_variable_usage_refused.
+Print Assumptions C07_every_reachable_root_key_is_collected.
+Print Assumptions C07_two_reachable_root_keys_reported.
+Print Assumptions C07_two_reachable_root_keys_refused.
